@@ -27,6 +27,21 @@ def reluCfg (cfg : Json) : Except String ReluCfg := do
 
 def zip2 (a b : List Rat) : List (Rat × Rat) := a.zip b
 
+def optBool (j : Json) (k : String) : Bool :=
+  match j.getObjVal? k with
+  | .ok (.bool b) => b
+  | _ => false
+
+/-- per-element rounding mode: `stoch` (use_stochastic_rounding), `phase` (K.learning_phase()), `us` the
+    element of the patched `tf.random.uniform` (absent: 0) -/
+def rnds (j : Json) (n : Nat) : List Rnd :=
+  let st := optBool j "stoch"
+  let ph := optBool j "phase"
+  let us : List Rat := match getRatList j "us" with | .ok l => l | .error _ => []
+  (List.range n).map fun i => { stoch := st, phase := ph, precision := 1, u := us.getD i 0 }
+
+def zipR (xs : List Rat) (rs : List Rnd) : List (Rat × Rnd) := xs.zip rs
+
 def handle (j : Json) : Except String Json := do
   let op ← getStr j "op"
   let t := tieOf j
@@ -37,7 +52,11 @@ def handle (j : Json) : Except String Json := do
     let c ← bitsCfg cfg
     let ste ← getBool j "use_ste"
     let qf ← getRat j "qf"
-    pure <| Json.mkObj [("out", dOut (xs.map fun x => qbitsD t c ste qf (D.var x)))]
+    if optBool j "stoch" then
+      pure <| Json.mkObj [("out", dOut ((zipR xs (rnds j xs.length)).map fun (x, r) =>
+        qbitsRD (D.roundThroughS t r) c ste qf (D.var x)))]
+    else
+      pure <| Json.mkObj [("out", dOut (xs.map fun x => qbitsD t c ste qf (D.var x)))]
   | "relu" =>
     let c ← reluCfg cfg
     let ste ← getBool j "use_ste"
@@ -46,8 +65,15 @@ def handle (j : Json) : Except String Json := do
     let up ← getOptRat cfg "upper"
     let xqs ← getRatList j "xqs"
     let o : ReluOpts := { isQuantizedClip := iqc, upper := up }
-    pure <| Json.mkObj [("out", dOut ((zip2 xs xqs).map fun (x, xq) =>
-      qreluD c o ste qf (D.var x) (D.const xq)))]
+    -- `slope` given: ANY negative_slope (1, 2, 4, …) through the general transcription
+    match getOptRat cfg "slope" with
+    | .ok (some sl) =>
+      let nsb : Int := c.bits - (if sl = 0 then 0 else 1)
+      pure <| Json.mkObj [("out", dOut ((zip2 xs xqs).map fun (x, xq) =>
+        qreluGD sl c.integer nsb o ste qf (D.var x) (D.const xq)))]
+    | _ =>
+      pure <| Json.mkObj [("out", dOut ((zip2 xs xqs).map fun (x, xq) =>
+        qreluD c o ste qf (D.var x) (D.const xq)))]
   | "linear" =>
     let b ← getInt cfg "bits"
     let i ← getInt cfg "integer"
@@ -56,7 +82,11 @@ def handle (j : Json) : Except String Json := do
     let al ← getOptRat cfg "alpha"
     let c : LinCfg := { bits := b, integer := i, symmetric := sy, keepNeg := kn, alpha := al }
     let qf ← getRat j "qf"
-    pure <| Json.mkObj [("out", dOut (xs.map fun x => qlinearD t c qf (D.var x)))]
+    if optBool j "stoch" then
+      pure <| Json.mkObj [("out", dOut ((zipR xs (rnds j xs.length)).map fun (x, r) =>
+        qlinearRD (D.roundThroughS t r) c ⟨c.qs, 5⟩ qf (D.var x)))]
+    else
+      pure <| Json.mkObj [("out", dOut (xs.map fun x => qlinearD t c qf (D.var x)))]
   | "bits_auto" =>
     -- data-dependent scale: `ss` = the implementation's `self.scale` (= scale * m) per element, an
     -- oracle input; the model's scale search returns it with a NON-zero tangent (K.max is
@@ -80,24 +110,27 @@ def handle (j : Json) : Except String Json := do
     let c : LinCfg := { bits := b, integer := i, symmetric := sy, keepNeg := kn, alpha := none }
     let qf ← getRat j "qf"
     let qss ← getRatList j "qss"
-    pure <| Json.mkObj [("out", dOut ((zip2 xs qss).map fun (x, qs) =>
-      qlinearSD t c ⟨qs, 5⟩ qf (D.var x)))]
+    pure <| Json.mkObj [("out", dOut (((zip2 xs qss).zip (rnds j xs.length)).map fun ((x, qs), r) =>
+      qlinearRD (D.roundThroughS t r) c ⟨qs, 5⟩ qf (D.var x)))]
   | "tanh_hard" =>
     let b ← getInt cfg "bits"
     let sy ← getBool cfg "symmetric"
-    pure <| Json.mkObj [("out", dOut (xs.map fun x => qtanhHardD t b sy (D.var x)))]
+    pure <| Json.mkObj [("out", dOut ((zipR xs (rnds j xs.length)).map fun (x, r) =>
+      qtanhRD (D.roundThroughS t r) b sy (D.add (D.smul 2 (hardSigmoidD (D.var x))) (D.const (-1)))))]
   | "sigmoid_hard" =>
     let b ← getInt cfg "bits"
     let sy ← getBool cfg "symmetric"
-    pure <| Json.mkObj [("out", dOut (xs.map fun x => qsigmoidHardD t b sy (D.var x)))]
+    pure <| Json.mkObj [("out", dOut ((zipR xs (rnds j xs.length)).map fun (x, r) =>
+      qsigmoidRD (D.roundThroughS t r) b sy (hardSigmoidD (D.var x))))]
   | "tanh_real" | "sigmoid_real" =>
     -- oracle inputs: p = f(x), dp = f'(x) as computed by TensorFlow
     let b ← getInt cfg "bits"
     let sy ← getBool cfg "symmetric"
     let ps ← getRatList j "ps"
     let dps ← getRatList j "dps"
-    pure <| Json.mkObj [("out", dOut ((zip2 ps dps).map fun (p, dp) =>
-      if op == "tanh_real" then qtanhD t b sy ⟨p, dp⟩ else qsigmoidD t b sy ⟨p, dp⟩))]
+    pure <| Json.mkObj [("out", dOut (((zip2 ps dps).zip (rnds j ps.length)).map fun ((p, dp), r) =>
+      if op == "tanh_real" then qtanhRD (D.roundThroughS t r) b sy ⟨p, dp⟩
+      else qsigmoidRD (D.roundThroughS t r) b sy ⟨p, dp⟩))]
   | "po2" =>
     let ste ← getBool j "use_ste"
     let qf ← getRat j "qf"
@@ -119,6 +152,33 @@ def handle (j : Json) : Except String Json := do
     let rows := (xs.zip xqs).zip (ths.zip dths)
     pure <| Json.mkObj [("out", dOut (rows.map fun ((x, xq), (th, dth)) =>
       binTerD an (fun _ => th) (fun _ => dth) (D.var x) (D.const xq)))]
+  | "binary_sr" =>
+    -- binary(use_stochastic_rounding=True) on ONE scale group (a 1-D tensor or one channel): `xs` all its
+    -- elements, `us` the draws, `ws` the upstream gradient, `f` = 2·min(max|x|, 1), `imax` the index of the
+    -- arg-max element when max|x| ≤ 1 (f differentiable there), else null.  Output i: (xq_i, d Σ_j w_j y_j / d x_i / w_i)
+    let an ← getBool cfg "alpha_none"
+    let ph := optBool j "phase"
+    let xqs ← getRatList j "xqs"
+    let ths ← getRatList j "ths"
+    let dths ← getRatList j "dths"
+    let us ← getRatList j "us"
+    let ws ← getRatList j "ws"
+    let fv ← getRat j "f"
+    let imax : Option Nat := match j.getObjVal? "imax" with
+      | .ok v => (v.getNat?).toOption
+      | _ => none
+    let n := xs.length
+    let idx := List.range n
+    let outs := idx.map fun i =>
+      let xi := xs.getD i 0
+      let ftan : Rat := if imax = some i then 2 * D.sgn xi else 0
+      let tot : Rat := idx.foldl (fun acc k =>
+        let xk : D := ⟨xs.getD k 0, if k = i then 1 else 0⟩
+        let y := binSRD t ph an (fun _ => ths.getD k 0) (fun _ => dths.getD k 0) ⟨fv, ftan⟩ (us.getD k 0) xk
+          (D.const (xqs.getD k 0))
+        acc + ws.getD k 0 * y.tan) 0
+      (⟨xqs.getD i 0, tot / ws.getD i 1⟩ : D)
+    pure <| Json.mkObj [("out", dOut outs)]
   | _ => throw s!"unknown op {op}"
 
 def main : IO Unit := lineLoop handle
